@@ -8,6 +8,11 @@
 //!     domain, dims 1,3,8,9,70, every query vector of the domain, `<->` and `<=>`,
 //!     `ORDER BY .. [LIMIT k]` for k in 1..=n and without LIMIT; distances are
 //!     recomputed by the harness in f64 from the returned vectors.
+//!     A second, large-magnitude domain (components +-2e19..1e20: ordinary f32 values whose squared
+//!     differences exceed the f32 range, plus a pair whose distances differ by 2e-8 relative, i.e.
+//!     below f32 resolution) is swept for dims 8, 9, 16 (thorough: also 3, 70), tables of <= 3
+//!     (thorough <= 4) rows.  For `<->` the order and the top-k choice are demanded exactly
+//!     wherever the f64 distances differ by more than f64 rounding (layer `*-exact`).
 use checks::sqlh::TestDb;
 use turdb::hnsw::distance as dk;
 use turdb::hnsw::DistanceFunction;
@@ -259,8 +264,45 @@ fn kernel_dim(d: usize, ks: &[Kernel], rep: &mut Reporter) {
 
 // ------------------------------------------------------------------ SQL part
 const SQL_DIMS: [usize; 5] = [1, 3, 8, 9, 70];
+/// dimensions of the large-magnitude domain: the first lengths that fill one / more than one / two 8-lane
+/// SIMD registers (3 = control below 8, 70 = many registers + tail: thorough only)
+const HUGE_DIMS_QUICK: [usize; 3] = [8, 9, 16];
+const HUGE_DIMS_THOROUGH: [usize; 5] = [8, 9, 16, 3, 70];
 
-fn sql_domain(d: usize) -> Vec<(&'static str, Vec<f32>)> {
+/// domain 0 = the moderate 5-vector domain, 1 = the large-magnitude domain
+fn sql_domain(domain: u8, d: usize) -> Vec<(&'static str, Vec<f32>)> {
+    if domain == 1 {
+        return huge_domain(d);
+    }
+    moderate_domain(d)
+}
+
+/// Components of the 1e19..1e20 scale: every one is an ordinary f32 (max 3.4e38) and every L2 distance
+/// between two vectors of the domain is an ordinary f64 (< 1e21), but the SQUARED differences (1e38..1e40)
+/// exceed the f32 range, so an evaluation that accumulates in f32 sees +inf and cannot order them.  Plus a
+/// pair (unit, unit-eps) whose distances from the origin differ by 2e-8 relative: far above f64 rounding,
+/// below f32 resolution.
+fn huge_domain(d: usize) -> Vec<(&'static str, Vec<f32>)> {
+    let at = |i: usize, x: f32| {
+        let mut v = vec![0.0f32; d];
+        v[i] = x;
+        v
+    };
+    let mut unit_eps = at(0, 1.0);
+    unit_eps[d - 1] += 2e-4;
+    vec![
+        ("huge-3e19", at(0, 3e19)),
+        ("huge-6e19", at(0, 6e19)),
+        ("origin", vec![0.0; d]),
+        ("huge-neg-5e19-last", at(d - 1, -5e19)),
+        ("huge-all-2e19", vec![2e19; d]),
+        ("huge-1e20-mid", at(d / 2, 1e20)),
+        ("unit", at(0, 1.0)),
+        ("unit-eps", unit_eps),
+    ]
+}
+
+fn moderate_domain(d: usize) -> Vec<(&'static str, Vec<f32>)> {
     let mut e0 = vec![0.0f32; d];
     e0[0] = 1.0;
     let mut neg = vec![0.0f32; d];
@@ -320,6 +362,8 @@ fn multisets(m: usize, n: usize) -> Vec<Vec<usize>> {
 }
 
 struct SqlCase {
+    /// 0 moderate domain, 1 large-magnitude domain
+    domain: u8,
     dim: usize,
     rows: Vec<usize>, // domain index per row, in insertion order (id = position + 1)
     hnsw: bool,
@@ -336,10 +380,10 @@ fn eq_tol(a: f64, b: f64, dim: usize) -> bool {
 
 /// run every (op, q, k) of one table; returns number of queries
 fn sql_table(ctx: &Ctx, db: &TestDb, tname: &str, c: &SqlCase, only: Option<(&str, usize)>, rep: &mut Reporter) -> u64 {
-    let dom = sql_domain(c.dim);
+    let dom = sql_domain(c.domain, c.dim);
     let n = c.rows.len();
     let opname = |op: &str| if c.hnsw { format!("{op}+hnsw") } else { op.to_string() };
-    let case = |op: &str, q: usize| json!({"kind": "sql", "dim": c.dim, "rows": c.rows, "hnsw": c.hnsw, "op": op, "q": q});
+    let case = |op: &str, q: usize| json!({"kind": "sql", "domain": c.domain, "dim": c.dim, "rows": c.rows, "rows_named": c.rows.iter().map(|&i| dom[i].0).collect::<Vec<_>>(), "hnsw": c.hnsw, "op": op, "q": q, "q_named": dom[q.min(dom.len() - 1)].0});
     let setup_fail = |rep: &mut Reporter, what: &str, obs: &str| {
         rep.violation("C24", "sql-setup", &format!("C24/setup/{}/{}/{}", dim_class(c.dim), what, if obs.starts_with("PANIC") { "panic" } else { "error" }), || case("-", 0), "statement succeeds", obs);
     };
@@ -392,7 +436,7 @@ fn sql_table(ctx: &Ctx, db: &TestDb, tname: &str, c: &SqlCase, only: Option<(&st
                     Some(k) if k > n => "limit>n".to_string(),
                     Some(_) => "limit-k".to_string(),
                 };
-                rep.case(vcore::util::hash_of(&("s", c.dim, &c.rows, c.hnsw, op, q, k)), n >= 2);
+                rep.case(vcore::util::hash_of(&("s", c.domain, c.dim, &c.rows, c.hnsw, op, q, k)), n >= 2);
                 let res = vcore::catch(|| db.db().query(&sql).map_err(|e| format!("{e:#}")));
                 let rows = match res {
                     Err(p) => {
@@ -523,6 +567,38 @@ fn sql_table(ctx: &Ctx, db: &TestDb, tname: &str, c: &SqlCase, only: Option<(&st
                     rep.violation("C24", "sql", &format!("C24/{}/{}/{}/wrong-topk", opname(op), dim_class(c.dim), pair), || case(op, q), &want, &shown());
                     continue;
                 }
+                // 4. `<->` is evaluated from f32 components whose exact L2 distance is an ordinary f64: where two exact
+                //    distances differ by more than f64 rounding (1e-12 relative) the order / the top-k choice is
+                //    demanded exactly, also when the difference is below f32 resolution
+                if op == "<->" {
+                    let lt_exact = |a: f64, b: f64| a < b - 1e-12 * a.abs().max(b.abs());
+                    let mut exact_bad: Option<(String, &'static str, String)> = None;
+                    for w in defined.windows(2) {
+                        if lt_exact(w[1].2.unwrap(), w[0].2.unwrap()) {
+                            exact_bad = Some((format!("{}~{}", w[0].1, w[1].1), "not-sorted-exact", "non-decreasing exact (f64) distances, also where they differ by less than f32 resolution".into()));
+                            break;
+                        }
+                    }
+                    if exact_bad.is_none() {
+                        for (i, g) in defined.iter().enumerate() {
+                            if lt_exact(defined_sorted[i], g.2.unwrap()) {
+                                let missing = c.rows.iter().zip(&all).find(|(_, d)| d.map(|x| !lt_exact(x, defined_sorted[i]) && !lt_exact(defined_sorted[i], x)).unwrap_or(false)).map(|(di, _)| dom[*di].0).unwrap_or("?");
+                                exact_bad = Some((format!("{}~{}", g.1, missing), "wrong-topk-exact", format!("{}-th smallest exact distance {:e}", i + 1, defined_sorted[i])));
+                                break;
+                            }
+                        }
+                    }
+                    if let Some((pair, cls, want)) = exact_bad {
+                        rep.violation("C24", "sql", &format!("C24/{}/{}/{}/{}", opname(op), dim_class(c.dim), pair, cls), || case(op, q), &want, &shown());
+                        continue;
+                    }
+                    if defined.windows(2).any(|w| lt_exact(w[0].2.unwrap(), w[1].2.unwrap()) && eq_tol(w[0].2.unwrap(), w[1].2.unwrap(), c.dim)) {
+                        rep.count("results_ordered_below_f32_resolution", 1);
+                    }
+                    if defined.iter().any(|g| g.2.unwrap() > 1.9e19) {
+                        rep.count("results_with_distance_whose_square_exceeds_f32", 1);
+                    }
+                }
                 // vacuity counters
                 if defined.windows(2).any(|w| eq_tol(w[0].2.unwrap(), w[1].2.unwrap(), c.dim)) {
                     rep.count("results_with_tied_distances", 1);
@@ -574,10 +650,11 @@ impl Check for C24 {
         let mut s = Spec::new(
             "C24",
             "exploration",
-            "(a) kernel case = (dimension d, ordered pair (a,b) of the per-dimension vector set {zero, unit axis first/last/middle, all-equal 0.75, alternating +-1, all 1e18, one 1e18 among ones, all 1e-18, repeating (1e18,1e-18,1), ramp, reversed ramp, negative half ramp, (3,..,4), (4,..,3)}); d = 1..=70 (thorough adds 127,128,129,1536); every case calls all 17 kernels of src/hnsw/distance.rs (5 dispatching entry points via select_distance_fn / select_squared_distance_fn / euclidean_squared, 5 scalar bodies, 5 AVX2+FMA bodies) and compares with an f64 evaluation of the definition; plus NaN/inf/f32::MAX inputs (no panic). Non-trivial = not (zero,zero). (b) SQL case = (dimension in {1,3,8,9,70}, multiset of n<=5 (quick) / n<=6 (thorough) vectors of the 5-vector domain {e0, -e0, zero, (1e18,0..,1e-18), dense +-0.5} inserted in canonical and in reversed order (thorough: also rotated by one, and with an HNSW index for n<=4), operator <-> or <=>, query vector of the domain, LIMIT none / 0 / 1..n / n+1); distances are recomputed in f64 from the returned vectors. Non-trivial = table has >= 2 rows.",
+            "(a) kernel case = (dimension d, ordered pair (a,b) of the per-dimension vector set {zero, unit axis first/last/middle, all-equal 0.75, alternating +-1, all 1e18, one 1e18 among ones, all 1e-18, repeating (1e18,1e-18,1), ramp, reversed ramp, negative half ramp, (3,..,4), (4,..,3)}); d = 1..=70 (thorough adds 127,128,129,1536); every case calls all 17 kernels of src/hnsw/distance.rs (5 dispatching entry points via select_distance_fn / select_squared_distance_fn / euclidean_squared, 5 scalar bodies, 5 AVX2+FMA bodies) and compares with an f64 evaluation of the definition; plus NaN/inf/f32::MAX inputs (no panic). Non-trivial = not (zero,zero). (b) SQL case = (dimension in {1,3,8,9,70}, multiset of n<=5 (quick) / n<=6 (thorough) vectors of the 5-vector domain {e0, -e0, zero, (1e18,0..,1e-18), dense +-0.5} inserted in canonical and in reversed order (thorough: also rotated by one, and with an HNSW index for n<=4), operator <-> or <=>, query vector of the domain, LIMIT none / 0 / 1..n / n+1); distances are recomputed in f64 from the returned vectors. The same sweep runs over a large-magnitude 8-vector domain {3e19*e0, 6e19*e0, origin, -5e19*e_last, all 2e19, 1e20*e_mid, e0, e0+2e-4*e_last} (every component an ordinary f32, every exact distance an ordinary f64, squared differences beyond the f32 range; the last two differ in their distance from the origin by 2e-8 relative) for dimensions 8, 9, 16 (thorough: also 3 and 70) and n<=3 (thorough n<=4) rows. Non-trivial = table has >= 2 rows.",
         );
         s.assumptions = &[
             "kernel oracle: f64 evaluation of sum (a_i-b_i)^2, its sqrt, sum a_i*b_i, 1 - dot/(|a||b|); accepted error 4*dim*eps_f32 relative to the sum of absolute terms (cosine: 4*(dim+2)*eps_f32 absolute) plus dim * smallest subnormal; nothing is demanded when the exact sum of squares / products / a squared norm exceeds the f32 range, nor for cosine with a zero vector (only: no panic)",
+            "SQL oracle, exact layer (operator <-> only): where two exact f64 distances differ by more than 1e-12 relative, the rows must be ordered / chosen for the top-k accordingly, also when the difference is below f32 resolution (the components are f32, their exact L2 distance is an ordinary f64)",
             "SQL oracle: a returned row must be a table row (id, v as inserted); defined distances non-decreasing within 4*dim*eps_f32 relative; rows whose cosine distance is undefined (zero vector) may be placed all first or all last; the returned defined distances must be the smallest ones of the table (ties by value) and the number of undefined rows must fit NULLS FIRST or NULLS LAST",
             "the sandbox CPU has AVX2+FMA (counter avx2_fma_available), so the dispatching entry points run the SIMD bodies; the scalar bodies are called directly",
         ];
@@ -597,6 +674,9 @@ impl Check for C24 {
         rep.expect_nonzero("proper_topk_results_checked");
         rep.expect_nonzero("topk_boundary_is_a_tie");
         rep.expect_nonzero("kernel_values_within_bound");
+        rep.expect_nonzero("sql_tables_large_magnitude_domain");
+        rep.expect_nonzero("results_ordered_below_f32_resolution");
+        rep.expect_nonzero("results_with_distance_whose_square_exceeds_f32");
         rep.bound("kernel_error_bound", json!("4*dim*2^-23 * sum|terms| (+ dim*1.4e-45); cosine 4*(dim+2)*2^-23 absolute"));
         let mut dims: Vec<usize> = (1..=70).collect();
         if !ctx.quick() {
@@ -634,9 +714,25 @@ impl Check for C24 {
                 variants.push((n, 0, true));
             }
         }
-        'outer: for &d in &SQL_DIMS {
-            for &(n, rev, hnsw) in &variants {
-                for ms in multisets(5, n) {
+        // sweeps: the large-magnitude domain first (small), then the moderate domain
+        let hmax = ctx.tier.pick(3usize, 4usize);
+        rep.bound("sql_huge_domain", json!({"dims": if ctx.quick() { HUGE_DIMS_QUICK.to_vec() } else { HUGE_DIMS_THOROUGH.to_vec() }, "max_rows": hmax, "vectors": huge_domain(8).iter().map(|(n, _)| *n).collect::<Vec<_>>()}));
+        let huge_variants: Vec<(usize, u8, bool)> = variants.iter().copied().filter(|(n, rev, hnsw)| *n <= hmax && *rev <= 1 && (!*hnsw || *n <= 2)).collect();
+        let huge_dims: Vec<usize> = if ctx.quick() { HUGE_DIMS_QUICK.to_vec() } else { HUGE_DIMS_THOROUGH.to_vec() };
+        let mut sweep: Vec<(u8, usize, (usize, u8, bool))> = Vec::new();
+        for &d in &huge_dims {
+            for &v in &huge_variants {
+                sweep.push((1, d, v));
+            }
+        }
+        for &d in &SQL_DIMS {
+            for &v in &variants {
+                sweep.push((0, d, v));
+            }
+        }
+        'outer: for &(domain, d, (n, rev, hnsw)) in &sweep {
+            {
+                for ms in multisets(sql_domain(domain, d).len(), n) {
                     idx += 1;
                     if !ctx.mine(idx) {
                         continue;
@@ -672,9 +768,12 @@ impl Check for C24 {
                     }
                     tno += 1;
                     used += 1;
-                    let c = SqlCase { dim: d, rows, hnsw };
+                    let c = SqlCase { domain, dim: d, rows, hnsw };
                     let nq = sql_table(ctx, db.as_ref().unwrap(), &format!("t{tno}"), &c, None, rep);
                     rep.count("sql_tables", 1);
+                    if domain == 1 {
+                        rep.count("sql_tables_large_magnitude_domain", 1);
+                    }
                     rep.count(if hnsw { "sql_queries_with_hnsw_index" } else { "sql_queries_plain" }, nq);
                 }
             }
@@ -704,6 +803,7 @@ impl Check for C24 {
             }
             Some("sql") => {
                 let c = SqlCase {
+                    domain: case["domain"].as_u64().unwrap_or(0) as u8,
                     dim: case["dim"].as_u64().unwrap_or(1) as usize,
                     rows: case["rows"].as_array().map(|a| a.iter().map(|x| x.as_u64().unwrap_or(0) as usize).collect()).unwrap_or_default(),
                     hnsw: case["hnsw"].as_bool().unwrap_or(false),
